@@ -446,6 +446,10 @@ func evalC07(cs *c07Case) (sig, msg string, hit bool, judged bool) {
 	// The same rewrite is printed in every mode: if it cannot be emitted in
 	// one (it would not parse, or the rewrite itself fails) the file must be
 	// reported, with a non-zero exit status, in all of them.
+	if firstErr == "" && ra.ApplyErr != "" {
+		// the library refuses this file: so must every run of the command
+		firstErr = "library: " + trunc(ra.ApplyErr, 300)
+	}
 	if firstErr != "" {
 		for _, mode := range c07Modes {
 			if e, ok := exits[mode.Name]; ok && e == 0 {
